@@ -51,6 +51,8 @@ def shards(tier):
     out.append({"kind": "override"})
     out.append({"kind": "mixed-cipher"})
     out.append({"kind": "b64-chars"})
+    out.append({"kind": "value-chars"})
+    out.append({"kind": "phrase-terminators"})
     out.append({"kind": "sequences"})
     out.append({"kind": "large"})
     return out
@@ -106,6 +108,8 @@ def config_text(n: int) -> str:
     return text
 
 
+VALUE_CHARS = ["\x0b", "\x0c", "\x1c", "\x1d", "\x1e", "\x85", "\u2028", "\u2029", "\xa0", "\u3000", "\t", "=", "#", "\r"]
+TERMINATED = ["s3cret", "s3cret\n", "s3cret\r\n", "s3cret\r", "s3cret ", " s3cret", "s3cret\t", "\ufeffs3cret"]  # (a trailing NUL is no other key: HMAC zero-pads)
 B64_BYTES = {"plus": b"\xfb\xef\xbe", "slash": b"\xff\xff\xff", "both": b"\xfb\xff\xbf\xfe\xfb\xff"}
 
 
@@ -165,6 +169,14 @@ def run_shard(shard, ctx):
                 for key_kind in ("plus", "slash", "both"):
                     run_case({"kind": "positive", "cipher": c, "mac": m, "kdf": KDFS[len(salt_kind) % 2], "rounds": 1, "salt": 16,
                               "phrase": 1, "len": 9, "layout": "one", "salt_kind": salt_kind, "key_kind": key_kind}, ctx)
+    elif kind == "value-chars":
+        for ci, where in itertools.product(range(len(VALUE_CHARS)), ("middle", "twice", "start", "end")):
+            run_case({"kind": "positive", "cipher": CIPHERS[ci % 3], "mac": MACS[ci % 3], "kdf": KDFS[ci % 2], "rounds": 1, "salt": 8,
+                      "phrase": 1, "len": 0, "layout": "one", "value_char": ci, "where": where}, ctx)
+    elif kind == "phrase-terminators":
+        # the passphrase takes part in the key derivation byte for byte: trailing / leading blanks and line terminators count
+        for right, tries in itertools.product(TERMINATED, repeat=2):
+            run_case({"kind": "terminators", "right": right, "try": tries}, ctx)
     elif kind == "override":
         # the encrypted configuration re-defines names that are also present in the clear-text part (in any casing): after
         # unlock the decrypted value is the one exposed
@@ -240,9 +252,45 @@ def run_case(case, ctx):
                         return
                     ctx.outcome("refused-wrong-passphrase" if what == "W" else "refused-tamper")
             return
+        if case["kind"] == "terminators":
+            cfg = config_text(21)
+            text, outer, rblob, dblob, salt, dk = build("AES-256", "HMAC-SHA-256", KDFS[0], 1, 16, case["right"], cfg, "one")
+            v = VMX.parse(text)
+            before = copy.deepcopy(v.attr)
+            ctx.nontrivial += 1
+            ctx.transitions += 1
+            ctx.states += 1
+            try:
+                v.unlock_with_phrase(case["try"])
+                raised = False
+            except Exception:
+                raised = True
+            if case["try"] == case["right"]:
+                exp = dict(before)
+                exp.update(B.parse_dictionary(cfg))
+                if raised or v.attr != exp:
+                    ctx.violation(case, {"subject": "vmx.unlock", "kind": "correct-passphrase-refused", "how": "terminators"},
+                                  {"passphrase": repr(case["right"])})
+                    return
+                ctx.outcome("unlocked")
+            else:
+                if not raised:
+                    ctx.violation(case, {"subject": "vmx.unlock", "kind": "unlocked-with-wrong-passphrase", "how": "terminators"},
+                                  {"right": repr(case["right"]), "tried": repr(case["try"])})
+                    return
+                if v.attr != before:
+                    ctx.violation(case, {"subject": "vmx.unlock", "kind": "attr-changed-on-failure", "how": "wrong-passphrase"}, {})
+                    return
+                ctx.outcome("refused-wrong-passphrase")
+            return
         if case["kind"] == "positive":
             phrase = PHRASES[case["phrase"]]
             cfg = config_text(case["len"])
+            if case.get("value_char") is not None:
+                ch = VALUE_CHARS[case["value_char"]]
+                v = {"middle": "my old disk" + ch + "copy.vmdk", "twice": "a" + ch + "b" + ch + "memsize = 9", "start": ch + "x",
+                     "end": "x" + ch}[case["where"]]
+                cfg = 'scsi0:0.fileName = "%s"\nmemsize = "512"' % v
             if case.get("override"):
                 cs = {"same": str, "lower": str.lower, "upper": str.upper}[case["casing"]]
                 cfg = "\n".join(['%s = "decrypted-%d"' % (cs(n), i) for i, n in enumerate(case["override"])] + ['extra = "1"'])
